@@ -132,7 +132,7 @@ def correspondence(ctx):
         r = run_real(sname, ops=ops, foreign=False)
         if r is None: dist['dropped_set_order_unreliable'] += 1; continue
         items.append(r); labels.append((label, sname))
-    nrand = ctx.scale(96, 3000)
+    nrand = ctx.scale(60, 3000)
     for sname in sorted(I.SCHEMAS):
         for n in range(nrand // len(I.SCHEMAS)):
             rng = random.Random('%s/corr/%s/%d' % (ctx.seed, sname, n))
@@ -191,7 +191,7 @@ def classify_many(ctx, cases):
 
 def search(ctx, deep):
     """Property oracle on real Pony only: snapshot before a raising call == snapshot after.  The model is used to name the code site."""
-    n = 3000 if deep else 60
+    n = 3000 if deep else 45
     dist = collections.Counter()
     evals, nontriv = 0, set()
     found = {}
